@@ -4,13 +4,19 @@ CHECK = dict(
     sources=[],
     variants=[dict(name="plain-" + b, flavour="plain", backend=b) for b in _B] +
              [dict(name="asan-tbb", flavour="asan", backend="tbb"),
-              dict(name="asan-internal", flavour="asan", backend="internal")],
+              dict(name="asan-internal", flavour="asan", backend="internal"),
+              # the consuming translation units compiled the way an application that uses OpenMP for its own loops
+              # compiles them (-fopenmp), with rkcommon configured for the internal / the serial backend
+              dict(name="plain-internal-fopenmp", flavour="plain", backend="internal", defs=["-fopenmp"], libs=["-fopenmp"]),
+              dict(name="plain-debug-fopenmp", flavour="plain", backend="debug", defs=["-fopenmp"], libs=["-fopenmp"])],
     parallel_runs=1,
     floor={"plain-tbb:loops_where_concurrency_ge_2_observed": 10,
            "plain-omp:loops_where_concurrency_ge_2_observed": 10,
            "plain-internal:loops_where_concurrency_ge_2_observed": 10,
-           "plain-debug:inits": 10},
+           "plain-debug:inits": 10, "plain-debug-fopenmp:inits": 10,
+           "plain-internal-fopenmp:loops_where_concurrency_ge_2_observed": 10},
     assumptions=[
+        "build configurations: the four backends, plus the internal and serial backends with the application compiled with -fopenmp",
         "the verdict uses the number of threads simultaneously inside bodies; distinct thread ids are evidence only",
         "n <= 0 is generated only as the first initialisation of a process (what the property states)",
     ],
